@@ -44,3 +44,7 @@ def cases(tier, seed):
 
 def execute(case):
     return storeops.execute_case(case, {"blob"}, "c07", PROP)
+
+
+def shrink(case, same, budget_s):
+    return storeops.shrink_ops_with_faults(case, same, budget_s)
